@@ -10,7 +10,7 @@ from .. import absval, gens, msgcheck, rfc4511
 from ..engine import QUICK, THOROUGH, Ctx, Part, Property, Violation
 
 
-def check_strict(m: t.Dict[str, t.Any], ctx: Ctx) -> t.List[Violation]:
+def check_strict(m: t.Dict[str, t.Any], ctx: Ctx, x: t.Any = None) -> t.List[Violation]:
     kind = m["kind"]
     classes = msgcheck.message_classes(m)
     for c in classes:
@@ -19,7 +19,7 @@ def check_strict(m: t.Dict[str, t.Any], ctx: Ctx) -> t.List[Violation]:
     if msgcheck.is_nontrivial(classes):
         ctx.nontrivial(m)
     try:
-        b = absval.to_lib(m).pack(absval.default_options())
+        b = (x if x is not None else absval.to_lib(m)).pack(absval.default_options())
     except Exception as e:
         return [Violation(f"pack:{kind}:{msgcheck.exc_site(e)}", f"{m!r}: {e!r}")]
     try:
@@ -48,6 +48,23 @@ class Messages(Part):
 
     def check(self, case: t.Any, ctx: Ctx) -> t.List[Violation]:
         return check_strict(case, ctx)
+
+
+class Twins(Part):
+    """As C01's twins part, with the independent decoder as oracle (state surviving between pack calls)."""
+
+    name = "twins"
+    examples = {QUICK: 700, THOROUGH: 12000}
+
+    def strategy(self, tier: str) -> t.Any:
+        from .c01 import Twins as T
+
+        return T().strategy(tier)
+
+    def check(self, case: t.Any, ctx: Ctx) -> t.List[Violation]:
+        from .c01 import check_twins
+
+        return check_twins(case, ctx, lambda m, x=None: check_strict(m, ctx, x), unpack=False)
 
 
 class Boundary(Part):
@@ -100,7 +117,7 @@ PROP = Property(
         "recover exactly the abstract message; every deviation is a violation keyed by (deviation code, ASN.1 path). "
         "Non-trivial rule as C01; distinct by abstract value."
     ),
-    parts=[Messages(), Boundary()],
+    parts=[Messages(), Boundary(), Twins()],
     assumptions=[
         "the reference codec (self-tested every run: decode(encode(a, knobs)) == a) is the trusted base",
         "SIZE(1..MAX) constraints are not enforced (empty lists decode to empty lists)",
